@@ -20,7 +20,10 @@ echo "== demo WITH the change" >> $LOG
 git -C $WT diff --stat >> $LOG
 cargo test -p $PKG $FEAT --test $DEMONAME --offline >> $LOG 2>&1; WITH=$?
 echo "== demo WITHOUT the change" >> $LOG
-git -C $WT stash -q -- $(git -C $WT diff --name-only) ; cargo test -p $PKG $FEAT --test $DEMONAME --offline >> $LOG 2>&1; WITHOUT=$?; git -C $WT stash pop -q
+# (git stash is shared by all worktrees of a repository: reverse-apply the patch instead)
+git -C $WT diff > $DST/.wt.diff; git -C $WT apply -R $DST/.wt.diff; cargo test -p $PKG $FEAT --test $DEMONAME --offline >> $LOG 2>&1; WITHOUT=$?; git -C $WT apply $DST/.wt.diff
+if ! diff -q <(git -C $WT diff) $OUT/patch.diff > /dev/null; then echo "NOTE: the worktree diff differs textually from out/patch.diff (kept: the worktree's)" >> $LOG; git -C $WT diff > $DST/patch.diff; fi
+rm -f $DST/.wt.diff
 rm -f $WT/$PKG/tests/$DEMONAME.rs
 echo "== repository suite WITH the change" >> $LOG
 cargo test --workspace --no-fail-fast --offline 2>&1 | grep -E "^test result|FAILED|failed" | sort | uniq -c > $DST/suite.log; cat $DST/suite.log >> $LOG
